@@ -28,6 +28,11 @@ class InvalidP8PNGError(util.InvalidP8DataError):
     pass
 
 
+class CodeTooLargeError(util.InvalidP8DataError):
+    """Exception for code that does not fit the cart's code area."""
+    pass
+
+
 def get_picodata_from_pngdata(width, height, pngdata, attrs):
     """Extracts PICO-8 bytes from a .p8.png's PNG data.
 
@@ -157,6 +162,11 @@ def get_bytes_from_code(code):
     else:
         # Use uncompressed.
         code_bytes = bytes(code)
+
+    if len(code_bytes) > 0x8000-0x4300:
+        raise CodeTooLargeError(
+            'code needs {} bytes, the cart code area holds {}'.format(
+                len(code_bytes), 0x8000-0x4300))
 
     byte_array = bytearray(0x8000-0x4300)
     byte_array[:len(code_bytes)] = code_bytes
